@@ -583,7 +583,10 @@ class Interp(Engine):
                     return False
                 container = h.val
             else:
-                raise Outside("`in` on object")
+                fld = self.delegating_dunder(h, '__contains__', ast.In)
+                if fld is None:
+                    raise Outside("`in` on object")
+                return self.contains(h.fields[fld], x, st)
         if isinstance(container, EmptyMap):
             return False
         if isinstance(container, RangeV):
@@ -622,6 +625,38 @@ class Interp(Engine):
             if k == 'bytes' or k == 'str':
                 return z3.Contains(container.t, self.term(x))
         raise Outside("`in` on %r" % (container,))
+
+    def delegating_dunder(self, h, name, op):
+        """`x in obj` / `obj[k]` on an object whose class defines the operator as a one-line delegation to one of its own
+        fields (`return x in self.f` / `return self.f[k]`, read from the real source): the name of that field"""
+        cls = h.cls
+        fn = None
+        for k in getattr(cls, '__mro__', ()):
+            if name in k.__dict__:
+                fn = k.__dict__[name]
+                break
+        if fn is None or h.fields is None:
+            return None
+        try:
+            node, _src = self.func_ast(fn)
+        except Exception:
+            return None
+        body = [b for b in node.body if not (isinstance(b, ast.Expr) and isinstance(b.value, ast.Constant))]
+        if len(body) != 1 or not isinstance(body[0], ast.Return):
+            return None
+        params = [a.arg for a in node.args.args]
+        r = body[0].value
+        if name == '__contains__' and isinstance(r, ast.Compare) and len(r.ops) == 1 and isinstance(r.ops[0], ast.In) \
+                and isinstance(r.left, ast.Name) and r.left.id == params[1] and isinstance(r.comparators[0], ast.Attribute) \
+                and isinstance(r.comparators[0].value, ast.Name) and r.comparators[0].value.id == params[0]:
+            f = r.comparators[0].attr
+            return f if f in h.fields else None
+        if name == '__getitem__' and isinstance(r, ast.Subscript) and isinstance(r.value, ast.Attribute) \
+                and isinstance(r.value.value, ast.Name) and r.value.value.id == params[0] \
+                and isinstance(r.slice, ast.Name) and r.slice.id == params[1]:
+            f = r.value.attr
+            return f if f in h.fields else None
+        return None
 
     def key_term(self, x, kty, st):
         """term used to index a map/set whose declared key type is kty (value classes may be keyed by a projection)"""
@@ -874,7 +909,7 @@ class Interp(Engine):
         if isinstance(v, EmptyMap):
             yield st, BuiltinMethod(v, name)
             return
-        if isinstance(v, tuple) and v and v[0] in ('logger', 'opaque', 'external', 'lock'):
+        if isinstance(v, tuple) and v and v[0] in ('logger', 'opaque', 'external', 'lock', 'extobj'):
             # logging.Logger (A-LOG) and other effect-free collaborators: any method, no effect, returns None
             yield st, BuiltinMethod(v, name)
             return
@@ -1060,7 +1095,11 @@ class Interp(Engine):
                     return
                 v = h.val
             else:
-                raise Outside("subscript on object")
+                fld = self.delegating_dunder(h, '__getitem__', None)
+                if fld is None:
+                    raise Outside("subscript on object")
+                yield from self.index(h.fields[fld], k, st, e)
+                return
         if isinstance(v, EmptyMap):
             if st.spec:
                 raise Outside("index into an empty map in a specification")
@@ -1182,6 +1221,12 @@ class Interp(Engine):
             if is_concrete(k):
                 yield st, self.untuple(v)[k]
                 return
+        if kind == 'cls' and v.ty.args[0] in self.reg.classes:
+            # a value class with its own __getitem__ (under contract)
+            fn = inspect_getattr_static(self.reg.classes[v.ty.args[0]].pyclass, '__getitem__')
+            if fn is not None and callable(fn):
+                yield from self.call_function(fn, [v, k], {}, st)
+                return
         raise Outside("subscript on %r (line %s)" % (v.ty, line))
 
     # ---------------------------------------------------------------------------------------------- comprehensions
@@ -1193,7 +1238,33 @@ class Interp(Engine):
         yield from self.comprehension(e, st, 'gen')
 
     def ev_SetComp(self, e, st):
-        raise Outside("set comprehension")
+        """{x for x in S if c(x)} over a set S (the element expression is the variable itself): the set of the members of
+        S satisfying c, as an array lambda"""
+        if len(e.generators) != 1 or not isinstance(e.elt, ast.Name) or not isinstance(e.generators[0].target, ast.Name) \
+                or e.elt.id != e.generators[0].target.id or e.generators[0].is_async:
+            raise Outside("set comprehension (only {x for x in S if c(x)} is interpreted)")
+        g = e.generators[0]
+        for s, base in self.ev(g.iter, st):
+            if isinstance(base, Raised):
+                yield s, base
+                continue
+            bv = self.lift(base, s) if isinstance(base, Ref) else base
+            if not (isinstance(bv, V) and bv.ty.kind == 'set'):
+                raise Outside("set comprehension over %r" % (bv,))
+            ety = bv.ty.args[0]
+            x = self.fresh('sx', ety)
+            sub = s.fork()
+            sub.stack.append(Frame({g.target.id: x}, len(sub.stack) - 1, sub.frame.globs, sub.frame.qualname))
+            sub.bound = list(s.bound) + [x.t]
+            sub.spec = True       # conditions are evaluated as formulas over the bound element
+            conds = []
+            for c in g.ifs:
+                outs = list(self.ev(c, sub))
+                if len(outs) != 1 or isinstance(outs[0][1], Raised):
+                    raise Outside("set comprehension condition must be a pure expression")
+                conds.append(self.b(self.truth(outs[0][1], outs[0][0])))
+            body = z3.And(z3.Select(bv.t, x.t), *conds) if conds else z3.Select(bv.t, x.t)
+            yield s, self.new_container(s, 'set', V(z3.Lambda([x.t], body), bv.ty))
 
     def ev_DictComp(self, e, st):
         yield from self.dict_comprehension(e, st)
